@@ -327,7 +327,10 @@ func (*Ufs) Walk(req *SrvReq) {
 		path = p
 	}
 
-	nfid.path = path
+	// a partial walk leaves both fids where they were
+	if i == len(tc.Wname) {
+		nfid.path = path
+	}
 	req.RespondRwalk(wqids[0:i])
 }
 
